@@ -85,6 +85,12 @@ def tune_c02(rng, k):
         k["dirty_first"] = True
         k["prints"] = rng.choice([2, 2, 3])
         k["p_abort"] = 0.5
+        if rng.random() < 0.35:
+            # regions are cleared when a job ends (however it ends): the judged job has nothing to avoid
+            k["clear_after"] = True
+            k["settings"] = dict(k.get("settings") or {}, clearRegionsAfterPrintFinishes=True)
+    if mode == "disabled" and rng.random() < 0.3:
+        k["settings"] = dict(k.get("settings") or {}, atCommandActions=list(gen.INTERLEAVED_AT))
     if mode == "clear" and rng.random() < 0.5:
         # disable ... enable brackets inside a clear-path program: still nothing may be altered, but the
         # decisions after re-enabling depend on the position tracked while exclusion was off
@@ -242,6 +248,8 @@ def tune_c15(rng, k):
         k["w"]["settings_change"] = 1.5
         k["settings_anytime"] = True
         k["between_settings"] = 0.5
+    if rng.random() < 0.3:
+        k["w"]["at_switch"] = 1.5     # a job may end with exclusion switched off: the next one starts enabled again
 
 
 RULE_STATE = ("distinct (abstract filter state, op kind) pairs reached, abstract state = (print active, "
@@ -556,6 +564,9 @@ def decorate_file(rng, lines, eol, nlines):
         while rng.random() < 0.12:
             out.append(rng.choice(["", "   ", "; just a comment", "  ; indented comment", ";", "\t"]) + eol)
         t = text
+        if t.startswith("@") and " " in t and rng.random() < 0.2:
+            # any whitespace separates an @-command from its parameters (the host splits with str.split(None, 1))
+            t = t.replace(" ", rng.choice(["\t", "  ", " \t "]), 1)
         if nlines and not t.startswith("@"):
             n += 1
             body = "N%d %s" % (n, t)
